@@ -159,6 +159,15 @@ Theorem copies_are_fresh : forall rk c pop draws h e np h',
 Proof. exact copies_are_fresh_lemma. Qed.
 Print Assumptions copies_are_fresh.
 
+(* ... also when the children are subsequently trained, evaluated (scores appended in place to their
+   fitness lists) or mutated: any sequence of in-place writes to objects the elite / members own *)
+Theorem parents_survive_children : forall rk c pop draws h e np h',
+  wf_pop h pop -> select_h rk c pop draws h = Some (e, np, h') ->
+  forall ws, (forall w, In w ws -> In (fst w) (concat (map owned (e :: np)))) ->
+  forall a, In a pop -> abs (writes h' ws) a = abs h a.
+Proof. exact parents_survive_children_lemma. Qed.
+Print Assumptions parents_survive_children.
+
 (* reading values off the heap gives exactly the value-level model, so every theorem above
    (elite, winners, size, indices, faithful copies) holds of the ownership-level select as well *)
 Theorem select_h_refines : forall rk c pop draws h e np h',
@@ -182,6 +191,14 @@ Theorem pinned_clone_shares_refuted :
     exists a l, In a pin_pop /\ In l (owned a) /\ In l (concat (map owned (e :: np))).
 Proof. exact pinned_clone_shares. Qed.
 Print Assumptions pinned_clone_shares_refuted.
+
+(* ... so that training the child (a write to an object the child owns) changes the parent *)
+Theorem pinned_training_changes_parent_refuted :
+  exists e np h', select_h_gen (hclone_pinned 1) [0; 1] pin_cfg pin_pop [[0]] pin_heap = Some (e, np, h') /\
+    exists ws a, (forall w, In w ws -> In (fst w) (concat (map owned (e :: np)))) /\ In a pin_pop /\
+                 abs (writes h' ws) a <> abs pin_heap a.
+Proof. exact pinned_training_changes_parent. Qed.
+Print Assumptions pinned_training_changes_parent_refuted.
 
 (* ---- non-vacuity: concrete populations with ties, negative and unequal-length histories ---- *)
 Definition ex_pop : list (agent nat) :=
